@@ -50,12 +50,26 @@ def main(argv=None):
             json.dump(core.jsonable(ctx.dump_partial()), f)
         return 0
 
-    ctx = core.Ctx(pid, args.tier, args.seed, replay=args.replay)
     if args.replay:
+        # Replay = re-run the recorded workload (same tier and seed: every random choice is derived from
+        # the seed, so the recorded case is generated again) under the same monitors, against the current
+        # tree, and report whether the recorded violation class re-appears.  Evidence is not rewritten.
         with open(args.replay) as f:
-            ctx.replay = json.load(f)
-        core.guarded(ctx, mod.replay if hasattr(mod, "replay") else mod.run, ctx)
-        return core.finish(ctx, mod)
+            rec = json.load(f)
+        os.environ["VERIF_EVIDENCE_DIR"] = tempfile.mkdtemp(prefix="vmon-replay-ev-")
+        os.environ["VERIF_REPLAY_DIR"] = tempfile.mkdtemp(prefix="vmon-replay-")
+        cmd = [sys.executable, "-B", os.path.join(HERE, "main.py"), pid, "--tier", rec.get("tier", "quick"), "--seed", str(rec.get("seed", 0))]
+        p = subprocess.run(cmd, env=dict(os.environ), capture_output=True, text=True)
+        again = [l for l in p.stdout.splitlines() if l.strip().startswith("key=" + rec.get("key", "\0"))]
+        print(f"replay of {args.replay}: recorded key {rec.get('key')}")
+        print(f"  recorded: {rec.get('what', '')[:300]}")
+        if again:
+            print(f"  REPRODUCED: {again[0].strip()[:300]}")
+            print(f"VIOLATION property={pid} replay={args.replay}")
+            return 1
+        print(f"  not reproduced on the current tree (check exit {p.returncode})")
+        return 0 if p.returncode == 0 else p.returncode
+    ctx = core.Ctx(pid, args.tier, args.seed, replay=None)
 
     nshards = args.shards or getattr(mod, "SHARDS", {}).get(args.tier, 1)
     if nshards <= 1:
